@@ -263,7 +263,7 @@ VTIME_CAP = 3e5
 
 
 def run_tool(scn: Scenario, base: Path, faults=None, on_event=None, trace=False, gate=None, upstream_files=None,
-             hashseed=None, prepare=None, on_request=None, on_write=None):
+             hashseed=None, prepare=None, on_request=None, on_write=None, chunk_size=64):
     """Runs APTMirror.run() in this process.  faults: {url: {path: {"first": [Resp...], "rest": Resp}}}.
     upstream_files: {url: files} overrides rendering (for history steps).  Returns RunResult."""
     import apt_mirror.apt_mirror as am
@@ -281,7 +281,7 @@ def run_tool(scn: Scenario, base: Path, faults=None, on_event=None, trace=False,
         up = sim.SimUpstream()
         up.files = files
         for p, (data, mtime) in files.items():
-            up.set(p, [], sim.Resp("ok", announced=len(data), date=mtime, body=data, chunks=64))
+            up.set(p, [], sim.Resp("ok", announced=len(data), date=mtime, body=data, chunks=chunk_size))
         for p, sc in (faults or {}).get(r["url"], {}).items():
             good = up.default.get(p)
             first = [good if x == "good" else x for x in sc.get("first", [])]
